@@ -17,7 +17,11 @@
     * `wrapper`                     — transcription of commands/hooks/*.rs as dispatched by
                                       git_handlers.rs: run_pre_command_hooks / run_post_command_hooks;
     * `invoke`, `both`              — `handle_git_hook_invocation`'s skip logic and the environment the wrapper
-                                      gives its child git (`proxy_to_git`), over the extracted tables.
+                                      gives its child git (`proxy_to_git`), over the extracted tables;
+    * `Op.agentCheckpoint`, `Op.heal` — `git-ai checkpoint` between two git commands: its entry point
+                                      (`ensure_repo_level_hooks_for_checkpoint`, extracted) restores hook entry points
+                                      that `rebase --abort` left masked (/repo bdec53b6); the empty-todo fallback of the
+                                      post-checkout arm is read from the extracted guard (/repo 52b736f3).
 
   Commit ids are scenario-local numbers (`Sha`); the null oid is never a `Sha` (absent values are `Option`).
   Model file: core-only imports plus the extracted table.
@@ -254,6 +258,9 @@ structure RebaseFacts where
   inner : List Inner
   /-- a working log exists for `orig` when the rebase starts (needs `--autostash`: a rebase wants a clean tree) -/
   wlAtOrig : Bool
+  /-- `--autostash` with a dirty tree: git creates `.git/rebase-merge` (to keep the autostash) BEFORE it runs
+      pre-rebase, and applies the stash after the last hook of the rebase -/
+  autostash : Bool := false
   deriving DecidableEq, Repr
 
 inductive CoMode | plain | force | merge
@@ -332,7 +339,7 @@ def lastNew (head : Sha) (ps : List (Sha × Sha)) : Sha :=
 def rebaseStartEvs (r : RebaseFacts) (pull : Bool) (todoEmpty : Bool) : List HookEv :=
   let act : Action := if pull then .pull else .unset
   let cIn : Ctx := { rebaseDir := true, action := act }
-  [.preRebase (some r.upstreamArg) r.branchArg { head := some r.orig, action := act },
+  [.preRebase (some r.upstreamArg) r.branchArg { head := some r.orig, action := act, rebaseDir := r.autostash },
    .refTx .committed [⟨some r.orig, some r.onto, .head⟩] { cIn with head := some r.onto },
    .postCheckout (some r.orig) (some r.onto) true
       { cIn with head := some r.onto, wlPresent := r.wlAtOrig, todoEmpty := todoEmpty }]
@@ -872,9 +879,11 @@ def Op.wf : Op → Bool
 /-- the facts under which both modes hand the shared handlers the same thing -/
 def Op.agree : Op → Bool
   | .commit .. | .commitFails .. | .amend .. | .mergeSquash .. | .pullFF .. | .cherryPickNoCommit .. => true
-  | .rebase r => (r.aligned || r.noop) && !r.wlAtOrig
+  -- pending attributions carried over a rebase (`--autostash`): hooks mode moves the working log to the new base
+  -- at the checkout inside the rebase and the shared handler no longer finds it (witness_rebase_autostash)
+  | .rebase r => (r.aligned || r.noop) && !r.wlAtOrig && !r.autostash
   | .rebaseContinue r => r.aligned && !r.wlAtOrig
-  | .pullRebase r | .rebaseStop r => !r.wlAtOrig
+  | .pullRebase r | .rebaseStop r => !r.wlAtOrig && !r.autostash
   | .agentCheckpoint _ => true
   | .rebaseAbort _ => true
   | .cherryPick _ ps => ps.length == 1
